@@ -44,14 +44,18 @@ class SimEventLoop(asyncio.SelectorEventLoop):
         lst.append((context.get("message"), type(exc).__name__ if exc is not None else None))
 
 
-def run_async(world: World, main: Callable[..., Coroutine[Any, Any, Any]], *args: Any, debug: bool = False) -> Any:
-    """Run ``main(*args)`` to completion on a fresh SimEventLoop (asyncio.Runner does the tear-down)."""
+def run_async(world: World, main: Callable[..., Coroutine[Any, Any, Any]], *args: Any, debug: bool = False, det_tasks: bool = True) -> Any:
+    """Run ``main(*args)`` to completion on a fresh SimEventLoop (asyncio.Runner does the tear-down).
+
+    det_tasks=True: every task of the loop (including the main one) is a ``SimTask`` (see below)."""
     from sniffio import thread_local
 
     old_name, thread_local.name = thread_local.name, "asyncio"
     try:
         with asyncio.Runner(loop_factory=lambda: SimEventLoop(world), debug=debug) as runner:
             loop = runner.get_loop()
+            if det_tasks:
+                deterministic_tasks(loop)
             world.loop = loop  # type: ignore[attr-defined]
             try:
                 return runner.run(main(*args))
@@ -85,3 +89,31 @@ async def loop_goes_idle(world: World, loop: asyncio.AbstractEventLoop, iteratio
     await asyncio.sleep(50.0)
     used = world.counters["loop_iterations"] - before
     return used <= iterations
+
+
+# ------------------------------------------------------------------------------------------------ deterministic task sets
+class SimTask(asyncio.Task):  # type: ignore[type-arg]
+    """asyncio.Task whose hash is its creation index on its loop instead of its address.
+
+    Why: ``asyncio.TaskGroup._abort()``, ``asyncio.Runner`` tear-down and ``asyncio.all_tasks()`` iterate over *sets*
+    of tasks; the default hash is ``id()``-based, so the order in which sibling tasks are cancelled (and therefore
+    the order of their ``close`` events in the trace) changes from one run to the next in the same process.
+    With creation-index hashes the iteration order of such a set is a pure function of the insertion history.
+    Equality stays identity.  Opt-in: call ``deterministic_tasks(loop)`` first thing inside ``main``."""
+
+    def __init__(self, coro, *, loop=None, **kw):  # type: ignore[no-untyped-def]
+        lp = loop if loop is not None else asyncio.get_event_loop()
+        seq = getattr(lp, "_sim_task_seq", 0) + 1
+        lp._sim_task_seq = seq  # type: ignore[attr-defined]
+        self._sim_hash = seq  # before Task.__init__: it registers the task in a WeakSet (hashes it)
+        super().__init__(coro, loop=loop, **kw)
+
+    def __hash__(self) -> int:
+        return self._sim_hash
+
+
+def deterministic_tasks(loop: asyncio.AbstractEventLoop | None = None) -> None:
+    """install SimTask as the task factory of `loop` (default: the running loop)"""
+    if loop is None:
+        loop = asyncio.get_running_loop()
+    loop.set_task_factory(lambda lp, coro, **kw: SimTask(coro, loop=lp, **kw))
